@@ -79,7 +79,8 @@ class World:
 
         self.mods = {}
         for m in MODS:
-            o = Mod(m, root.getChild(m), {'description': ''}, srv)
+            # m2 is not exported: log routing (and its reset on off / *IDN? / disconnect) does not depend on that
+            o = Mod(m, root.getChild(m), {'description': '', 'export': m != 'm2'}, srv)
             srv.secnode.modules[m] = o
             self.mods[m] = o
         self.conns = {c: Conn(c, self.dispatcher) for c in conns}
